@@ -86,7 +86,8 @@ def run_case(prop_id, case_dict, pins=None):
         res = core.explore(body, max_paths=case_dict.get("max_paths", 20000),
                            max_decisions=case_dict.get("max_decisions", 4000),
                            timeout_ms=case_dict.get("timeout_ms"),
-                           deadline=time.time() + float(os.environ.get("VERIF_CASE_DEADLINE_S", "900")))
+                           deadline=time.time() + float(os.environ.get("VERIF_CASE_DEADLINE_S", "900")),
+                           stop_file=case_dict.get("stop_file"))
         d = res.as_dict()
         out.update(d)
         out["labels"] = labels
@@ -190,22 +191,68 @@ def main(argv=None):
     random.Random(seed).shuffle(cases)
     cases.sort(key=lambda c: -c.weight)
     results = []
+    known, fixed = load_known(prop_id)
+    seen_known = {}
+    real = []
+    nonrepro = []
+    os.makedirs(os.path.join(VERIF, "replays"), exist_ok=True)
+    seen_sig = set()
+    # fail fast: once a violation has been reproduced natively (and is not a listed known finding) the verdict of the
+    # run is decided; cases still exploring are told to stop through this file.  Never created on a tree that holds.
+    stop_file = os.path.join("/var/tmp", "sx-stop-%d-%d" % (os.getpid(), int(time.time())))
+
+    def handle_violations(r):
+        for v in r.get("violations", []):
+            rec = dict(property=prop_id, case=r["case"], fn=r["fn"], params=r["params"], label=v["label"],
+                       witness=v["witness"], extra=v.get("extra"), oracle=v.get("oracle"))
+            sig = (r["case"], v["label"])
+            if sig in seen_sig:
+                continue
+            seen_sig.add(sig)
+            rp = replay_native(prop_id, rec)
+            rec["replay_result"] = rp
+            if rp.get("witness_found"):
+                rec["witness_from_model"] = rec["witness"]
+                rec["witness"] = rp["witness_found"]
+            h = hashlib.sha256(json.dumps(rec, sort_keys=True, default=str).encode()).hexdigest()[:12]
+            path = os.path.join(VERIF, "replays", "%s-%s.json" % (prop_id, h))
+            json.dump(rec, open(path, "w"), indent=1, default=str)
+            if rp.get("status") != "reproduced":
+                nonrepro.append((rec, path, rp))
+                continue
+            k = match_known(known, rec)
+            if k:
+                seen_known.setdefault(k["id"], (k, rec, path))
+            else:
+                real.append((rec, path))
+                try:
+                    open(stop_file, "w").close()
+                except OSError:
+                    pass
+
     ctx = mp.get_context("spawn")
-    with cf.ProcessPoolExecutor(max_workers=min(a.jobs, max(1, len(cases))), mp_context=ctx,
-                                initializer=_worker_init) as ex:
-        futs = {}
-        for c in cases:
-            d = c.as_dict()
-            d.update(max_paths=c.max_paths, max_decisions=c.max_decisions, timeout_ms=c.timeout_ms)
-            futs[ex.submit(run_case, prop_id, d)] = c
-        for f in cf.as_completed(futs):
-            c = futs[f]
-            try:
-                r = f.result()
-            except BaseException as e:
-                r = dict(case=c.name, fn=c.fn, params=c.params, error="worker died: %r" % (e,))
-            r["need"] = list(c.need)
-            results.append(r)
+    try:
+        with cf.ProcessPoolExecutor(max_workers=min(a.jobs, max(1, len(cases))), mp_context=ctx,
+                                    initializer=_worker_init) as ex:
+            futs = {}
+            for c in cases:
+                d = c.as_dict()
+                d.update(max_paths=c.max_paths, max_decisions=c.max_decisions, timeout_ms=c.timeout_ms, stop_file=stop_file)
+                futs[ex.submit(run_case, prop_id, d)] = c
+            for f in cf.as_completed(futs):
+                c = futs[f]
+                try:
+                    r = f.result()
+                except BaseException as e:
+                    r = dict(case=c.name, fn=c.fn, params=c.params, error="worker died: %r" % (e,))
+                r["need"] = list(c.need)
+                results.append(r)
+                handle_violations(r)
+    finally:
+        try:
+            os.remove(stop_file)
+        except OSError:
+            pass
 
     # ---- translator validation: the repository's own test inputs through native code and through
     # the engine with the inputs pinned to those values
@@ -230,37 +277,6 @@ def main(argv=None):
             if not r.get("labels", {}).get(lab):
                 inconclusive.append("%s: vacuous -- assertion %r never reached" % (r["case"], lab))
     inconclusive.extend(tv_err)
-
-    known, fixed = load_known(prop_id)
-    seen_known = {}
-    real = []
-    nonrepro = []
-    os.makedirs(os.path.join(VERIF, "replays"), exist_ok=True)
-    seen_sig = set()
-    for r in results:
-        for v in r.get("violations", []):
-            rec = dict(property=prop_id, case=r["case"], fn=r["fn"], params=r["params"], label=v["label"],
-                       witness=v["witness"], extra=v.get("extra"), oracle=v.get("oracle"))
-            sig = (r["case"], v["label"])
-            if sig in seen_sig:
-                continue
-            seen_sig.add(sig)
-            rp = replay_native(prop_id, rec)
-            rec["replay_result"] = rp
-            if rp.get("witness_found"):
-                rec["witness_from_model"] = rec["witness"]
-                rec["witness"] = rp["witness_found"]
-            h = hashlib.sha256(json.dumps(rec, sort_keys=True, default=str).encode()).hexdigest()[:12]
-            path = os.path.join(VERIF, "replays", "%s-%s.json" % (prop_id, h))
-            json.dump(rec, open(path, "w"), indent=1, default=str)
-            if rp.get("status") != "reproduced":
-                nonrepro.append((rec, path, rp))
-                continue
-            k = match_known(known, rec)
-            if k:
-                seen_known.setdefault(k["id"], (k, rec, path))
-            else:
-                real.append((rec, path))
 
     for rec in VECTOR_VIOLATIONS:
         rec = dict(rec, property=prop_id)
